@@ -70,6 +70,18 @@ SHORT = {
  'C14d': 'parser (`parse_key_code`): the error message shortens an over-long key name with a byte slice (`&text[..24]` panics inside a multi-byte character)',
  'C19d': '`remove_mapping`: the hand-over branch `continue`s past the removal from the mapped outputs (the key stays in both lists; a later release is sent twice)',
  'C20d': 'per-device loop: an error of `next_tablet` outside tablet mode is logged and treated like Busy',
+ 'C02e': '`add_new_mapping`: the `should_absorb` guard removed, `release_absorbed_keys` runs on every key-producing activation (a double tap of an absorbing combo forgets the held modifier; its later release is ignored and the output stays down)',
+ 'C04e': '`add_new_mapping`: the pass-through claim step moved before `release_absorbed_keys` (a trigger modifier handed back by a torn-down absorbing remap stays down). Manifests only with an absorbing mapping - outside the quantifier of C04 (non-absorbing layouts), hence UNDECIDED there; reported through C02 and C05',
+ 'C05f': '`is_action_key`: table lookup in a list that names `LEFTALT` twice and omits `RIGHTALT` (AltGr treated as a repeatable key)',
+ 'C06e': '`newly_release`: "nothing to undo" early return skips the removal from the keys considered pressed (the key stays recorded as down after its release and after release_all; a later press is swallowed)',
+ 'C10d': 'per-device loop: "contact-bounce filter" drops a press that directly follows the release of the same key within one notification',
+ 'C11e': 'per-device loop: the repeat outcome of a burst is applied once, after the last event (a trailing ignored event erases an earlier Disabled / Repeating of the same burst)',
+ 'C13g': '`adjust_repeats`: the repeat setting of a repeat-only entry is built for the first combination and reused for the others (output-side alias in the repeat keys no longer follows the trigger-side choice)',
+ 'C13h': '`has_duplicate_key`: seen-table indexed by `code as u8` (two keys whose codes differ by 256 count as duplicates; a legal layout is rejected)',
+ 'C14e': 'parser: `parse_repeat_delay_ms` / `_interval_ms` merged, `as_u64().unwrap()` panics on a negative number',
+ 'C14f': '`newly_release` / `release_absorbed_keys`: removal from the keys considered pressed through `position(..).unwrap()` (panics when an absorbed modifier was released before the next key)',
+ 'C17d': '`systemd_arg_escape`: `$` doubled only when the next character could start a variable name (a run of dollars is written bare and collapses)',
+ 'C19e': '`release_all_action_keys`: rewritten as one iterator chain that no longer removes the lifted keys from the passed-through keys (second `Released` at the physical key-up)',
 }
 rows = []
 for s in sorted(os.listdir('/verif/seeded')):
